@@ -53,6 +53,7 @@ type primChecker struct {
 	e        *dboundsEngine
 	advances map[*ssa.Function]bool // realDecoder methods that may move the cursor
 	remAtRet map[string]bool        // getter whose result is ≤ remaining() at return
+	depth    int
 }
 
 func sameVal(a, b ssa.Value) bool {
@@ -180,6 +181,9 @@ func (pc *primChecker) remValid(fn *ssa.Function, site ssa.Instruction, n remNee
 			if ok := pc.fromRemGetter(fn, site, n.v); ok {
 				return true, nil
 			}
+			if pc.fromCallSites(fn, site, n.v) {
+				return true, nil
+			}
 		}
 		return false, path
 	}
@@ -204,6 +208,46 @@ func (pc *primChecker) remValid(fn *ssa.Function, site ssa.Instruction, n remNee
 		}
 	}
 	return true, nil
+}
+
+// fromCallSites: v is a parameter of a private helper of the decoder; the cursor does not move between the
+// helper's entry and the site, and every call site of the helper passes an argument for which
+// remaining() ≥ arg is validly established at the call.
+func (pc *primChecker) fromCallSites(fn *ssa.Function, site ssa.Instruction, v ssa.Value) bool {
+	pr, ok := dStrip(v).(*ssa.Parameter)
+	if !ok || pr.Parent() != fn {
+		return false
+	}
+	sites := pc.e.helperCallSites(fn)
+	if len(sites) == 0 || pc.depth > 3 {
+		return false
+	}
+	idx := -1
+	for i, q := range fn.Params {
+		if q == pr {
+			idx = i
+		}
+	}
+	adv := func(it Item) bool { return it.In != nil && it.In != site && pc.isAdvance(it.In) }
+	reg := WholeFn(fn)
+	for _, a := range reg.Find(adv) {
+		if hit, _ := reg.From(a.After()).Reach(Is(site), nil); !hit.IsZero() {
+			if pre, _ := reg.Reach(IsItem(a), Is(site)); !pre.IsZero() {
+				return false
+			}
+		}
+	}
+	pc.depth++
+	defer func() { pc.depth-- }()
+	for _, cl := range sites {
+		if idx >= len(cl.Call.Args) {
+			return false
+		}
+		if ok, _ := pc.remValid(cl.Parent(), cl, remNeed{v: cl.Call.Args[idx]}); !ok {
+			return false
+		}
+	}
+	return true
 }
 
 // fromRemGetter: v is result #0 of a realDecoder getter that returns a value ≤ remaining(), its
